@@ -351,6 +351,106 @@ theorem assemble_perm (persist : Bool) (respond : Json → Json) (bins : List (L
       rw [this]
       exact hb.map respond
 
+/-! ### the code against the item-by-item semantics -/
+
+theorem itemwise_nil (ops : List (Json → Except PErr Json)) : itemwise ops [] = [] := by
+  cases ops <;> rfl
+
+theorem itemwise_append (ops : List (Json → Except PErr Json)) (a b : List Json) :
+    itemwise ops (a ++ b) = itemwise ops a ++ itemwise ops b := by
+  cases ops <;> simp [itemwise]
+
+theorem flatten1_eq : ∀ rs : List Json, flatten1 rs = rs.flatMap expand1
+  | [] => rfl
+  | r :: rs => by
+    cases r <;> simp [flatten1, expand1, flatten1_eq rs]
+
+theorem flatMap_expand1_of_no_array : ∀ rs : List Json, rs.all (fun v => !v.isArray) = true →
+    rs.flatMap expand1 = rs
+  | [], _ => rfl
+  | r :: rs, h => by
+    simp only [List.all_cons, Bool.and_eq_true] at h
+    have ih := flatMap_expand1_of_no_array rs h.2
+    cases r <;> simp_all [expand1, Json.isArray]
+
+theorem flattenInPlace_arr {ε : Type} (rs : List Json) :
+    (flattenInPlace (.arr rs) : Except (PipeErr ε) Json) = .ok (.arr (rs.flatMap expand1)) := by
+  unfold flattenInPlace
+  by_cases h : rs.all (fun v => !v.isArray) = true
+  · simp only [h, if_true]; rw [flatMap_expand1_of_no_array rs h]
+  · simp only [h]; rw [flatten1_eq]; rfl
+
+/-- one successful `json_array_op` is one item-by-item step -/
+theorem itemwise_step (op : Json → Except PErr Json) (ops : List (Json → Except PErr Json)) :
+    ∀ (items rs : List Json), mapOp op items = .ok rs →
+      itemwise (op :: ops) items = itemwise ops (rs.flatMap expand1)
+  | [], rs, h => by
+    simp only [mapOp, Except.ok.injEq] at h
+    subst h
+    simp [itemwise, itemwise_nil]
+  | q :: r, rs, h => by
+    simp only [mapOp] at h
+    cases hq : op q with
+    | error e => simp [hq] at h
+    | ok q' =>
+      simp only [hq] at h
+      cases hr : mapOp op r with
+      | error e => simp [hr] at h
+      | ok r' =>
+        simp only [hr, Except.ok.injEq] at h
+        subst h
+        have ih := itemwise_step op ops r r' hr
+        simp only [itemwise, List.flatMap_cons, hq] at ih ⊢
+        rw [ih, itemwise_append]
+
+/-- when no plugin fails and the final state is an array of objects, the code computes the item-by-item
+expansion -/
+theorem applyOps_itemwise : ∀ (ops : List (Json → Except PErr Json)) (items final : List Json),
+    applyOps ops (.arr items) = .ok (.arr final) → final.all Json.isObject = true →
+    itemwise ops items = final.map .ok
+  | [], items, final, h, hall => by
+    simp only [applyOps, Except.ok.injEq, Json.arr.injEq] at h
+    subst h
+    simp only [itemwise]
+    apply List.map_congr_left
+    intro q hq
+    simp [List.all_eq_true.mp hall q hq]
+  | op :: ops, items, final, h, hall => by
+    simp only [applyOps, jsonArrayOp] at h
+    cases hm : mapOp op items with
+    | error e => simp [hm] at h
+    | ok rs =>
+      simp only [hm, flattenInPlace_arr] at h
+      rw [itemwise_step op ops items rs hm]
+      exact applyOps_itemwise ops _ final h hall
+
+theorem jsonArrayFlatten_ok {ε : Type} {s : Json} {qs : List Json}
+    (h : (jsonArrayFlatten s : Except (PipeErr ε) (List Json)) = .ok qs) :
+    s = .arr qs ∧ qs.all Json.isObject = true := by
+  unfold jsonArrayFlatten at h
+  cases s with
+  | arr xs =>
+    by_cases ha : xs.all Json.isObject = true
+    · simp only [ha, if_true, Except.ok.injEq] at h
+      subst h; exact ⟨rfl, ha⟩
+    · simp [ha] at h
+  | _ => simp at h
+
+theorem prepT_ok_itemwise (plugins : List Plugin) (q : Json) (qs : List Json)
+    (h : prepT plugins q = .ok qs) : itemwise (plugins.map processT) [q] = qs.map .ok := by
+  unfold prepT applyInputPlugins at h
+  cases ha : applyOps (plugins.map processT) (.arr [q]) with
+  | error e => simp [ha] at h
+  | ok s =>
+    simp only [ha] at h
+    cases hf : (jsonArrayFlatten s : Except (PipeErr PErr) (List Json)) with
+    | error e => simp [hf] at h
+    | ok qs' =>
+      simp only [hf, Except.ok.injEq] at h
+      subst h
+      obtain ⟨rfl, hall⟩ := jsonArrayFlatten_ok hf
+      exact applyOps_itemwise _ _ _ ha hall
+
 /-! ### worker interleavings -/
 
 /-- what worker `w` will have produced once it is done -/
